@@ -684,7 +684,7 @@ def check(ctx):
 
 
 OPEN_STATEMENTS = [
-    "join_eventually: under weak fairness every join of the repaired full model eventually returns (stated in Props.lean, comment block OPEN). Proved of it: `join_eventually_partial` (every maximal finite schedule ends with all joins returned and every call executed exactly once = terminal_state_is_complete), its deadlock-freedom core `no_stuck` (unconditional) and the safety half `join_after_completion`; missing: that every weakly fair schedule is finite, a ranking argument (CAS retry loops, spin lock and re-check loops are lock-free, not wait-free)",
+    "join_eventually: under weak fairness every join of the repaired full model eventually returns (stated in Props.lean, comment block OPEN). Proved of it: `join_eventually_partial` (every maximal finite schedule ends with all joins returned and every call executed exactly once = terminal_state_is_complete), its deadlock-freedom core `no_stuck` (unconditional) and the safety half `join_after_completion`; also proved: `fair_run_never_stalls` and the reduction `join_eventually_partial_budget` (fairness/spinning discharged, straight-line code and CAS retries measured); missing: a budget function for the ten cross-thread loop heads (remaining pushes/pops + wake credits), i.e. that every weakly fair schedule is finite (CAS retry loops, spin lock and re-check loops are lock-free, not wait-free)",
 ]
 
 
